@@ -785,6 +785,9 @@ func scenario(v variant) *netctl.Scenario {
 				if len(p2) > 1 {
 					a.mark(kgo.AckReject, p2[1])
 				}
+				if len(p2) > 2 { // renew with no terminal ack: left to poll3's auto-accept while the renew is still unconfirmed
+					a.ack(p2[2], kgo.AckRenew)
+				}
 				t.Step("poll3") // leaves the rest of poll2 to the auto-accept
 				ctx, cancel = context.WithTimeout(context.Background(), 3*time.Second)
 				a.poll(ctx, v.pollMax)
